@@ -177,7 +177,7 @@ func init() {
 	core.Register(&core.Prop{
 		ID:    "C14",
 		Level: "exploration",
-		Rule: "cases: 9 patches exercising every matcher/replacer kind (elision, 'for ...', statement lists, repeated metavariables, imports with cleanup, declaration patterns, multi-change) x 8 files (with sites, without, unparseable, generated). " +
+		Rule: "cases: 9 patches exercising every matcher/replacer kind (elision, 'for ...', statement lists, repeated metavariables, imports with cleanup, declaration patterns, multi-change), and for every 4th case a random / schema / abstracted-from-code patch, x 8 files (with sites, without, unparseable, generated). " +
 			"Library: one parsed patch shared by G in {2,8,24} goroutines released by a start barrier, 4-13 Apply calls each over a shuffled mix of the files, GOMAXPROCS in {1,4,16}; then the same calls in 3 sequential permutations. " +
 			"CLI (-race build): the file set processed solo, grouped, in 4 argument orders, with duplicated arguments and via the directory. Monitors: (1) Go race detector in harness and CLI (GORACE log files, reports counted and attributed); " +
 			"(2) every result equals the solo result F(file) computed with a freshly parsed patch in this process (stateless sequential model: a history is linearizable iff every operation returned F(input)); " +
@@ -226,6 +226,18 @@ func runC14(ctx *core.Ctx, idx int) *core.Result {
 	pi := idx % len(c14Patches)
 	pt := c14Patches[pi]
 	files := c14Files(g, pi)
+	if idx%4 == 3 {
+		// a random / schema / abstracted-from-code patch: whatever matcher and replacer kinds it compiles to are
+		// shared by the goroutines (the oracle is the solo run, no reference model needed)
+		c := g.RandomChangeWide()
+		pt, pi = c.PatchText(), len(c14Patches)+idx
+		files = files[len(files)-2:] // keep the unparseable and the generated file
+		for f := 0; f < 6; f++ {
+			plants, _ := g.InstancePlants(c, r.Intn(4), r.Intn(2))
+			files = append([]string{g.File(gen.FileOpts{Plants: plants, Decls: 2 + r.Intn(5)})}, files...)
+		}
+		res.Ob("random-patch-cases", 1)
+	}
 	racesBefore, _ := raceReports()
 
 	// solo model F(file): fresh patch per file
